@@ -444,9 +444,9 @@ GENERIC_FILES = ['permuta/perm_sets/permset.py', 'permuta/perm_sets/basis.py']
 
 
 def variants():
-    from ..selftest import generic_silent
+    from ..selftest import generic_equiv, generic_silent
 
-    return _variants() + generic_silent(GENERIC_FILES)
+    return _variants() + generic_silent(GENERIC_FILES) + generic_equiv(GENERIC_FILES)
 
 
 def _variants():
@@ -713,3 +713,25 @@ def run(ctx: Ctx) -> None:  # noqa: F811
 
 FLOORS["C02-E1"] = 6
 FLOORS["C02-E2"] = 1
+
+
+# ------------------------------------------------------------------ C02-E3: binary searches run on sequences sorted by construction
+
+
+def rule_bisect(ctx: Ctx) -> None:
+    from ..core import check_bisect_preconditions
+
+    n = check_bisect_preconditions(ctx, "C02-E3", ['permuta.perm_sets.permset', 'permuta.perm_sets.basis'])
+    if n == 0:
+        ctx.ok("C02-E3", "permuta.perm_sets.permset", "no binary search in the anchored modules (nothing to establish)")
+
+
+_OLD_RUN_BISECT = run
+
+
+def run(ctx: Ctx) -> None:  # noqa: F811
+    _OLD_RUN_BISECT(ctx)
+    ctx.run(rule_bisect, ctx)
+
+
+FLOORS["C02-E3"] = 1
